@@ -188,6 +188,23 @@ def convert (cols : List (Name × List Cell)) (times : List Int) (nrec : Nat) : 
         | none => 0
       some { cols := cs, times := if hasTime then fitLen n times else [], nrec := nrec }
 
+/-! ## validateImportHeader (CSV / Parquet import) and the names the import stores -/
+
+def distinctNames : List Name → Bool
+  | [] => true
+  | x :: xs => !xs.contains x && distinctNames xs
+
+/-- `validateImportHeader`: no empty name, no duplicate, the time column is present, and a literal
+`time` column may not coexist with a renamed time column. -/
+def validHeader (header : List Name) (timeCol : Name) : Bool :=
+  !header.contains [] && distinctNames header && header.contains timeCol &&
+  (timeCol == timeName || !header.contains timeName)
+
+/-- the map keys `importCSV` / `importParquet` store the columns under: the header names exactly as
+validated (fact `importNamesStoredAsValidated`), the time column under "time". -/
+def storageName (timeCol : Name) (n : Name) : Name := if n == timeCol then timeName else n
+def storageNames (header : List Name) (timeCol : Name) : List Name := header.map (storageName timeCol)
+
 /-! ## rowsToColumnar (row-format MessagePack records of one measurement) -/
 
 structure Row where
